@@ -108,6 +108,26 @@ fn build_text(entry: Entry, xs: &[u32]) -> String {
     s
 }
 
+/// The new side's item type when the two sides have different types: equal to
+/// a `u64` of the old side when the values agree, but hashed differently (the
+/// algorithms' bounds ask for `Hash + Eq` per side and `PartialEq` across
+/// sides; nothing ties the two hash functions together).
+#[derive(Clone, Copy, Debug, PartialEq, Eq, PartialOrd, Ord)]
+pub struct Other(pub u64);
+
+impl std::hash::Hash for Other {
+    fn hash<H: std::hash::Hasher>(&self, state: &mut H) {
+        state.write_u64(!self.0);
+        state.write_u8(7);
+    }
+}
+
+impl PartialEq<u64> for Other {
+    fn eq(&self, other: &u64) -> bool {
+        self.0 == *other
+    }
+}
+
 /// An item whose `Hash` legitimately collides for unequal items (hashes only
 /// `v % modulus`); equality and order are those of `v`.
 #[derive(Clone, Copy, Debug, PartialEq, Eq, PartialOrd, Ord)]
@@ -175,6 +195,21 @@ fn run_once(seq: &SeqCase, entry: Entry, ex: &Exec) -> Result<Outcome, String> {
                     let n: Vec<u64> = seq.new.iter().map(|x| m[x]).collect();
                     go!(o, n)
                 }
+                4 => {
+                    // different item types on the two sides (plain slices as
+                    // lookups; the integer mapping is not part of this mode)
+                    let m = relabel_map(seq, ex.relabel_seed);
+                    let o: Vec<u64> = seq.old.iter().map(|x| m[x]).collect();
+                    let n: Vec<Other> = seq.new.iter().map(|x| Other(m[x])).collect();
+                    let ops = capture_diff(alg, &o[..], seq.or(), &n[..], seq.nr());
+                    // reported relative to the range starts, like the Slices entry
+                    let (so, sn) = (seq.old_range.0, seq.new_range.0);
+                    Outcome {
+                        ops: crate::oracle::unshift_ops(ops_of(&ops), so, sn).unwrap_or_default(),
+                        ids: Vec::new(),
+                        bytes_ops: None,
+                    }
+                }
                 2 => {
                     let m = relabel_map(seq, ex.relabel_seed);
                     let o: Vec<String> = seq.old.iter().map(|x| format!("{:020}", m[x])).collect();
@@ -236,6 +271,7 @@ const F_REPEAT_SAME_CALLER: usize = 7;
 const F_ORDER_CHANGED: usize = 8;
 const F_REAL_RANDOMSTATE: usize = 9;
 const F_RELABEL_COLLIDING: usize = 10;
+const F_HETEROGENEOUS: usize = 11;
 
 impl C20 {
     fn exec_inner(&self, case: &Case, out: &mut RunOut) -> Result<(), Fail> {
@@ -291,6 +327,7 @@ impl C20 {
                     1 => out.faults[F_RELABEL_U64] += 1,
                     2 => out.faults[F_RELABEL_STRING] += 1,
                     3 => out.faults[F_RELABEL_COLLIDING] += 1,
+                    4 => out.faults[F_HETEROGENEOUS] += 1,
                     _ => {}
                 }
                 if rep > 0 {
@@ -389,6 +426,7 @@ impl Prop for C20 {
             "map_iteration_order_differed_from_reference",
             "real_RandomState_on_fresh_thread(unjudged)",
             "relabel_colliding_hash(unequal items, equal hashes)",
+            "different_item_types_on_the_two_sides(unrelated hashes)",
         ]
     }
     fn components(&self) -> Value {
@@ -455,7 +493,8 @@ impl Prop for C20 {
             .map(|_| Exec {
                 hasher: draw_hasher(rng, allow_deg),
                 relabel: match entry {
-                    Entry::Slices | Entry::Distinct => rng.below(4) as u8,
+                    Entry::Slices => rng.below(5) as u8,
+                    Entry::Distinct => rng.below(4) as u8,
                     _ => 0,
                 },
                 relabel_seed: rng.next(),
